@@ -440,6 +440,8 @@ func (dr *DialogueRunner) RestoreAt(snapshot *Snapshot) error {
 	dr.statementsToRun.Clear()
 	dr.statementsToRun.Push(&statementQueue{statements: node.Statements})
 	dr.currentNode = node.Title()
+	dr.lastStatement = nil
+	dr.commandErrChan = nil
 	return nil
 }
 
